@@ -90,6 +90,28 @@ func genRange(r *Rng, m *ISet, light, huge bool) (uint64, uint64) {
 	return s, e
 }
 
+// emptyRange turns [s,e) into an empty range (s == e, or s > e: "a plain set would do nothing") 3 % of the time;
+// both ends stay within the bounds of the non-empty range they were derived from, so no documented-panic argument is formed.
+func emptyRange(r *Rng, s, e *uint64) bool {
+	if !r.Chance(0.03) {
+		return false
+	}
+	switch r.Intn(4) {
+	case 0:
+		*e = *s
+	case 1:
+		*s = *e
+	case 2: // inverted, both ends where the non-empty range had them
+		*s, *e = *e, *s
+	default: // inverted by one
+		*s, *e = *e, *e-1
+	}
+	if *e > *s { // (only when e was 0 and wrapped)
+		*e = *s
+	}
+	return true
+}
+
 func genManyValues(r *Rng, m *ISet) []uint32 {
 	n := []int{0, 1, 2, 5, 50, 300, 5000}[r.Intn(7)]
 	out := make([]uint32, 0, n)
@@ -190,20 +212,26 @@ func mutateStep(c *Ctx, bm *BM, o MutOpts) string {
 		}
 	case "AddRange":
 		s, e := genRange(r, m, o.Light, o.Huge)
+		empty := emptyRange(r, &s, &e)
 		c.Step("AddRange(%d,%d)", s, e)
 		c.Guard(sig, func() { b.AddRange(s, e) })
-		m.AddRange(s, e-1)
+		if !empty {
+			m.AddRange(s, e-1)
+		}
 	case "RemoveRange":
 		s, e := genRange(r, m, o.Light, o.Huge)
 		if r.Chance(0.05) {
 			e = 1<<32 + r.Range(0, 1<<33) // documented clamp
 		}
+		empty := emptyRange(r, &s, &e)
 		c.Step("RemoveRange(%d,%d)", s, e)
 		c.Guard(sig, func() { b.RemoveRange(s, e) })
 		if e > 1<<32 {
 			e = 1 << 32
 		}
-		m.RemoveRange(s, e-1)
+		if !empty {
+			m.RemoveRange(s, e-1)
+		}
 	case "Flip":
 		s, e := genRange(r, m, true, false)
 		if !o.Light && r.Chance(0.02) {
@@ -212,15 +240,18 @@ func mutateStep(c *Ctx, bm *BM, o MutOpts) string {
 				e = s + 200*65536
 			}
 		}
+		empty := emptyRange(r, &s, &e)
 		c.Step("Flip(%d,%d)", s, e)
 		c.Guard(sig, func() {
-			if e <= 1<<31-1 && r.Chance(0.2) {
+			if e <= 1<<31-1 && s <= 1<<31-1 && r.Chance(0.2) {
 				b.FlipInt(int(s), int(e))
 			} else {
 				b.Flip(s, e)
 			}
 		})
-		m.FlipRange(s, e-1)
+		if !empty {
+			m.FlipRange(s, e-1)
+		}
 	case "Clear":
 		c.Step("Clear()")
 		c.Guard(sig, func() { b.Clear() })
